@@ -24,3 +24,41 @@ Example lex_dollar : lex_front false (unhex "24") = FTokens [mkTok T_DOLLAR [36]
 Proof. vm_compute. reflexivity. Qed.
 Example lex_garbage : match lex_front false (unhex "2f2a20225c27603c3f2f2f") with FTokens ts => List.length ts | _ => 0 end = 1.
 Proof. vm_compute. reflexivity. Qed.
+
+(* ---- the statement-level parser model on small token lists (non-vacuity of accepted_is_complete, and the
+   defect classes it excludes) ---- *)
+From V.C04 Require Model.
+From V.Stmt Require Model Spec Run.
+Module StmtExamples.
+Import V.C04.Model V.Stmt.Model V.Stmt.Spec V.Stmt.Run.
+Definition v (n : nat) := SAtom (AVar n).
+Definition i (k : N) := SAtom (ANum false k).
+
+(* if ($a) { echo 1; } else { $b = $a + 2; } *)
+Example accepts_if_else :
+  parse_program [SKw KIf; SLp; v 0; SRp; SLbrace; SKw KEcho; i 1; SSemi; SRbrace; SKw KElse; SLbrace; v 1; SAsg AEq; v 0; SBin OAdd; i 2; SSemi; SRbrace]
+  = TopOk [SIf (EAtom (AVar 0)) [SEcho [EAtom (ANum false 1)]] []
+             [EAsg AEq (EAtom (AVar 1)) (EBin OAdd (EAtom (AVar 0)) (EAtom (ANum false 2)))]].
+Proof. vm_compute. reflexivity. Qed.
+
+(* $a = 1 + ;      a missing right operand is a positioned error (was accepted before fix c587cb8) *)
+Example rejects_missing_operand : parse_program [v 0; SAsg AEq; i 1; SBin OAdd; SSemi] = TopErr 4.
+Proof. vm_compute. reflexivity. Qed.
+(* if () { }       an empty condition (fix e8890f1) *)
+Example rejects_empty_condition : parse_program [SKw KIf; SLp; SRp; SLbrace; SRbrace] = TopErr 2.
+Proof. vm_compute. reflexivity. Qed.
+(* function f() { $a = 1;       a block that is never closed (fix d3848db) *)
+Example rejects_unclosed_block : parse_program [SKw KFunction; SIdent 7; SLp; SRp; SLbrace; v 0; SAsg AEq; i 1; SSemi] = TopErr 9.
+Proof. vm_compute. reflexivity. Qed.
+(* $a = ((1);      a parenthesis that is never closed (fix 36c211b) *)
+Example rejects_unclosed_paren : parse_program [v 0; SAsg AEq; SLp; SLp; i 1; SRp; SSemi] = TopErr 6.
+Proof. vm_compute. reflexivity. Qed.
+(* return;  for (;;) { break; }      the optional slots stay empty and the program is complete *)
+Example optional_slots :
+  match parse_program [SKw KFor; SLp; SSemi; SSemi; SRp; SLbrace; SKw KBreak; SSemi; SRbrace; SKw KReturn; SSemi] with
+  | TopOk p => forallb cmp p | _ => false end = true.
+Proof. vm_compute. reflexivity. Qed.
+(* ) ) )          tokens no parser takes: the no-progress guard answers, the model does not loop *)
+Example guard_ends_the_loop : parse_program [SRp; SRp; SRp] = TopErr 0.
+Proof. vm_compute. reflexivity. Qed.
+End StmtExamples.
